@@ -569,6 +569,11 @@ class Engine:
         # persistent caches
         self._zvars = {}
         self._lin_z_cache = {}
+        self._atom_z_cache = {}
+        self._not_cache = {}
+        self._bound_cache = {}
+        self._zero_i = z3.IntVal(0)
+        self._zero_r = z3.RealVal(0)
         self.depth_limit = None
         self._reset_path()
 
@@ -600,10 +605,17 @@ class Engine:
         name = self._name(base)
         zv = self.zvar(name, isint)
         self.vars[name] = (isint, lo, hi)
-        if lo is not None:
-            self.solver.add(zv >= lo)
-        if hi is not None:
-            self.solver.add(zv <= hi)
+        bk = (name, lo, hi)
+        bc = self._bound_cache.get(bk)
+        if bc is None:
+            bc = []
+            if lo is not None:
+                bc.append(zv >= lo)
+            if hi is not None:
+                bc.append(zv <= hi)
+            self._bound_cache[bk] = bc
+        if bc:
+            self.solver.add(*bc)
         if self.model is not None:
             d = 0
             if lo is not None and d < lo:
@@ -644,9 +656,13 @@ class Engine:
         return t
 
     def atom_z(self, a):
-        t = self.lin_z(a.lin)
-        zero = 0
-        return {LE: t <= zero, LT: t < zero, EQ: t == zero, NE: t != zero}[a.op]
+        z = self._atom_z_cache.get(a.key)
+        if z is None:
+            t = self.lin_z(a.lin)
+            zero = self._zero_r if z3.is_real(t) else self._zero_i
+            z = {LE: t <= zero, LT: t < zero, EQ: t == zero, NE: t != zero}[a.op]
+            self._atom_z_cache[a.key] = z
+        return z
 
     def eval_lin(self, x):
         m = self.model
@@ -736,7 +752,7 @@ class Engine:
                 self._commit(sb, False)
                 return False
         # model satisfies side `ms`; is the other side feasible too?
-        other_z = z3.Not(z) if ms else z
+        other_z = self.znot(sb) if ms else z
         if self._check(other_z):
             if self.depth_limit is not None and self.free_depth >= self.depth_limit:
                 raise PrefixReached()
@@ -751,8 +767,17 @@ class Engine:
             self.max_depth = self.pos
         return ms
 
+    def znot(self, sb):
+        if sb.key is None:
+            return z3.Not(sb.z)
+        n = self._not_cache.get(sb.key)
+        if n is None:
+            n = z3.Not(sb.z)
+            self._not_cache[sb.key] = n
+        return n
+
     def _commit(self, sb, taken):
-        self.solver.add(sb.z if taken else z3.Not(sb.z))
+        self.solver.add(sb.z if taken else self.znot(sb))
         if sb.key is not None:
             self.facts[sb.key] = taken
             n = _neg_atom(sb)
